@@ -1,5 +1,6 @@
 import EventppVerif.CL.Machine
 import Driver.QDriver
+import Driver.UtilDriver
 /-
   Line-protocol driver: reads scripts on stdin, runs them on the Lean Model or Spec and prints
   canonical output lines.  The C++ harness (harness/seq.cpp) reads the same scripts, drives the
@@ -143,6 +144,12 @@ def main (args : List String) : IO Unit := do
   let lines ← readAll (← IO.getStdin) #[]
   if mode = "q" then
     QD.main lines
+    return
+  if mode = "anyid" then
+    UD.anyidMain lines
+    return
+  if mode = "anydata" then
+    UD.anydataMain lines
     return
   let out ← IO.getStdout
   let mut cur : Option Script := none
